@@ -1,13 +1,11 @@
-/- Chunk 3 of the exhaustive C04 check: guard assignments 96 ≤ m < 128, all four cursor-flag
-   combinations, evaluated by the kernel (`decide +kernel`) on the lists regenerated from vaxis.go. -/
-import VaxisModel.Lemmas.C04Check
+/- Chunk 3 of the exhaustive C04 check: guard assignments 96 ≤ m < 128, all four visibility-flag
+   combinations of the two cursor records, evaluated by the kernel (`decide +kernel`) on the *symbolic*
+   lifecycle (run-time values are holes) interpreted from the lists regenerated from vaxis.go. -/
+import VaxisModel.Lemmas.C04SymCheck
 
-namespace VaxisModel.Lemmas.C04Check
-
-set_option maxRecDepth 100000 in
-theorem balanced_chunk03 : chunkB balancedB 96 128 = true := by decide +kernel
+namespace VaxisModel.Lemmas.C04SymCheck
 
 set_option maxRecDepth 100000 in
-theorem resume_chunk03 : chunkB resumeB 96 128 = true := by decide +kernel
+theorem sym_chunk03 : chunkB 96 128 = true := by decide +kernel
 
-end VaxisModel.Lemmas.C04Check
+end VaxisModel.Lemmas.C04SymCheck
